@@ -1,7 +1,9 @@
 import XpmVerif.Basic.JsonUtil
 import XpmVerif.Basic.Sha256
 import XpmVerif.Model.Serial
+import XpmVerif.Model.SerialData
 import XpmVerif.Generated.SerialFlags
+import XpmVerif.Generated.SerialKeys
 /-! Line-protocol driver for M5 (serialisation, runtime objects): C12 C13.
     Graph / value JSON as in Drive/Ident.lean, plus `cls` per node and a class library. -/
 open Lean XpmVerif XpmVerif.J XpmVerif.Ident XpmVerif.Serial
@@ -103,15 +105,25 @@ abbrev D := List Nat
 def hc : HC D := { H := Sha256.hashBytes, emb := id, le := bytesLe }
 def fl : Flags := Gen.serialFlags
 
+def dfl : DFlags := Gen.dataFlags
+
 structure DSt where
   sg : SGraph := { g := { nodes := [] }, cname := [] }
   lib : List Cls := []
+  tags : List Tags := []
 
-def defJ (sg : SGraph) (d : Def) : Json :=
-  Json.mkObj [("id", d.id), ("cls", hexOf d.cname),
+def tagsOf (j : Json) : Tags :=
+  (arrF j "tags").map (fun kv => (unhex (J.str ((arr kv).getD 0 Json.null)), valOf ((arr kv).getD 1 Json.null)))
+def tagsJ (t : Tags) : Json :=
+  Json.arr (t.map (fun kv => Json.arr #[Json.str (hexOf kv.1), valJ kv.2])).toArray
+def fsOf (j : Json) : FS := (arr j).map (fun kv => (unhex (J.str ((arr kv).getD 0 Json.null)), nat ((arr kv).getD 1 Json.null)))
+def fsJ (fs : FS) : Json := Json.arr (fs.map (fun kv => Json.arr #[Json.str (hexOf kv.1), (kv.2 : Json)])).toArray
+
+def defJ (sg : SGraph) (d : Def) (withId : Bool := true) : Json :=
+  Json.mkObj ([("id", (d.id : Json)), ("cls", Json.str (hexOf d.cname)),
     ("fields", Json.arr (d.fields.map (fun f => Json.arr #[Json.str (hexOf f.1), jvalJ f.2])).toArray),
-    ("pre", optNatsJ d.pre), ("init", optNatsJ d.init), ("meta", optBoolJ d.mflag), ("task", optNatJ d.task),
-    ("identifier", hexOf (fullId hc sg.g d.id))]
+    ("pre", optNatsJ d.pre), ("init", optNatsJ d.init), ("meta", optBoolJ d.mflag), ("task", optNatJ d.task)] ++
+    (if withId then [("identifier", Json.str (hexOf (fullId hc sg.g d.id)))] else []))
 
 def errJ : Err → Json
   | .duplicateId _ => Json.mkObj [("err", "duplicate-id")]
@@ -122,6 +134,7 @@ def errJ : Err → Json
   | .unknownField => Json.mkObj [("err", "key-error")]
   | .requiredNone => Json.mkObj [("err", "attribute-error")]
   | .empty => Json.mkObj [("err", "index-error")]
+  | .noDataLoader => Json.mkObj [("err", "other:RuntimeError")]
 
 def loadedJ (l : Loaded) : Json :=
   Json.arr (l.map (fun (p : Nat × LObj) => Json.mkObj ([("id", (p.1 : Json)), ("cls", Json.str (hexOf p.2.cname))] ++ nodeJ p.2.node))).toArray
@@ -147,7 +160,8 @@ def stepJ (s : DSt) (j : Json) : DSt × Json :=
   | "lib" => ({ s with lib := (arrF j "classes").map clsOf }, okJ)
   | "graph" =>
     let ns := arrF j "nodes"
-    ({ s with sg := { g := { nodes := ns.map nodeOf }, cname := ns.map (fun x => unhex (strF x "cls")) } }, okJ)
+    ({ s with sg := { g := { nodes := ns.map nodeOf }, cname := ns.map (fun x => unhex (strF x "cls")) },
+              tags := ns.map tagsOf }, okJ)
   | "serialize" =>
     (s, Json.mkObj [("defs", Json.arr ((serialize fl s.lib s.sg roots).map (defJ s.sg)).toArray)])
   | "statedict" =>
@@ -194,6 +208,28 @@ def stepJ (s : DSt) (j : Json) : DSt × Json :=
                     ("attrs", Json.arr (attrs.map (fun (p : Nat × List (List Nat × Val)) =>
                       Json.arr #[(p.1 : Json), Json.arr (p.2.map (fun f => Json.arr #[Json.str (hexOf f.1), valJ f.2])).toArray])).toArray),
                     ("data", valJ v)]
+      | .error e => errJ e)
+  | "save" =>
+    -- `serialization.save(v, dir)` then `serialization.load(dir)`; optionally a second generation into another directory
+    let v := valOf (fld j "v")
+    let fs := fsOf (fld j "fs")
+    let base := unhex (strF j "base")
+    let sv := save fl dfl s.lib s.sg fs v
+    let savedJ (sv : Saved) (sg : SGraph) : List (String × Json) :=
+      [("defs", Json.arr (sv.defs.map (fun d => defJ sg d (withId := false))).toArray), ("data", jvalJ sv.data), ("dir", fsJ sv.dir)]
+    if boolF j "gen2" then
+      (s, match saveLoadTwice fl dfl s.lib s.sg fs v base (unhex (strF j "base2")) with
+        | .ok (s1, l1, s2, l2, v2) =>
+          Json.mkObj (savedJ s1 s.sg ++ [("objs", loadedJ l1),
+            ("gen2", Json.mkObj (savedJ s2 (regraph l1 s.sg.g.size) ++ [("objs", loadedJ l2), ("value", valJ v2)]))])
+        | .error e => errJ e)
+    else
+      (s, match loadSaved fl dfl s.lib base sv with
+        | .ok (l, v') => Json.mkObj (savedJ sv s.sg ++ [("objs", loadedJ l), ("value", valJ v')])
+        | .error e => Json.mkObj (savedJ sv s.sg ++ [("load", errJ e)]))
+  | "tags" =>
+    (s, match jobTags s.sg.g (fun n => s.tags.getD n []) (natF j "root") with
+      | .ok t => Json.mkObj [("tags", tagsJ t)]
       | .error e => errJ e)
   | "instvalues" =>
     (s, match instanceValues (serialize fl s.lib s.sg [natF j "root"]) with
